@@ -71,10 +71,15 @@ NEGATIVE_CONTROLS = [
     "true then goes through Convert::ToLong = 1: same truth value) — silent with Boolean/Number custom variables generated",
     "nc8_sigterm_to_process_group: at the timeout SIGTERM goes to the plugin's process group instead of the plugin alone (children die "
     "earlier; the property — killed, UNKNOWN — holds): silent incl. the plugin with a forked child and the forking shell",
+    "nc9_short_macro_guard_default_resolvers: ResolveMacro's short-macro guard as two flat ifs WITH the continue kept (the harmless twin of "
+    "seeded change C09-11), GetDefaultResolvers built with emplace_back, the array branch of ResolveMacros with a named empty callback, "
+    "the timeout choice of PluginCheckTask::ScriptFunc as a conditional expression — applied to a scratch worktree and run through the whole "
+    "check at quick tier: silent (clauses undefined_macro_missing, array_cmd_verbatim, timeout_unknown with check_timeout)",
 ]
 # Breaking sibling changes written while extending the check (corpus/C09/sibling_changes/*.diff; each caught at quick tier, seed 1):
 #   m2_wtermsig          WIFSIGNALED branch of Process::DoEvents reports WTERMSIG as exit status (SIGHUP = WARNING)   -> spec:signal_unknown
 #   m3_env_escaped       `env` entries resolved with the shell-escape function (values arrive quoted)                  -> spec:env_verbatim
+#   m6_array_cmd_escaped elements of an ARRAY command line resolved with the shell-escape function (values arrive quoted)   -> spec:array_cmd_verbatim
 #   m5_num_value_skipped `value = 0` / `value = false` treated like an absent value (SkipValue)                         -> spec:argv_layout
 
 
@@ -89,6 +94,8 @@ class C09(StdCheck):
         "model_block_meets_layout_spec", "resolveArguments_meets_layout", "arguments_never_shell", "env_lone_macro_verbatim",
         "killed_plugin_unknown", "own_exit_code_kept", "shell_quote_roundtrip", "shell_quote_one_word", "shell_quote_needs_unquoted_counterexample",
         "exit_mapping", "output_split", "model_result_meets_spec", "model_string_command_meets_spec",
+        "short_macro_ignores_environment", "undefined_short_macro_missing", "model_meets_undefined_clause", "required_undefined_fails",
+        "env_macro_verbatim", "model_array_command_meets_spec", "verbatim_insertion_general", "failed_resolution_unknown_not_run", "missing_required_macro_check_unknown",
     ]
     technique = ("Lean 4 proof (round-trip law for the shell quoting over a model of sh word splitting, structural theorems about the "
                  "macro scanner and the argument emitter) about a hand-written executable model; correspondence by differential execution "
@@ -103,7 +110,13 @@ class C09(StdCheck):
                   "classes of equal `order`, each block is the specification's block, the result is never a shell line); a plugin that does not "
                   "end by its own exit (timeout expired whatever it does on SIGTERM, terminated by any signal, waitpid failure) is reported with "
                   "128 = UNKNOWN and only then (`killed_plugin_unknown`, `own_exit_code_kept`); an `env` entry that is one macro carries exactly "
-                  "its value; `$$` yields `$`; the value of a non-recursive macro is inserted untouched whatever bytes it contains and is not rescanned; the number and "
+                  "its value; macro values come from the levels only: the result of the whole resolver loop for a short macro is independent of the daemon's "
+                  "environment (`short_macro_ignores_environment`), a short macro no level defines is missing (`undefined_short_macro_missing`) and for EVERY "
+                  "string, level and escaping the model's missing report satisfies the trace clause `undefined_macro_missing` "
+                  "(`model_meets_undefined_clause`; a required argument with such a value fails: `required_undefined_fails`); `$env.NAME$` yields the "
+                  "variable verbatim, not rescanned (`env_macro_verbatim`); WHOLE array command line: one argv element per element of the array, each the "
+                  "element's text with every scalar macro value verbatim, never a shell line, also with an arguments dictionary appended — trace clause "
+                  "`array_cmd_verbatim` (`model_array_command_meets_spec`); `$$` yields `$`; the value of a non-recursive macro is inserted untouched whatever bytes it contains and is not rescanned; the number and "
                   "positions of the elements an argument contributes depend on its value only through its shape (scalar / array length) and every "
                   "value occupies exactly one element; a missing optional macro drops only its argument, a missing required one fails the "
                   "resolution; for EVERY byte string v, Utility::EscapeShellArg(v) read by the sh lexer model in unquoted state appends exactly v "
@@ -116,8 +129,9 @@ class C09(StdCheck):
                   "spawns only: /bin/sh word splitting (model restricted to unquoted text, backslash escapes, single and double quotes). Not compared "
                   "(not part of the property): which exception a failing resolution throws and every message/marker wording (the marker "
                   "appended for exit codes above 3 is an oracle input read from the implementation). Not "
-                  "modelled: fractional numbers/dictionaries/functions as macro values, typed elements inside arrays, nested arrays, the default "
-                  "`icinga`/`env` resolvers, runtime macros, set_if values beyond true/false/integers of up to 9 digits, std::sort instability beyond "
+                  "modelled: fractional numbers/dictionaries/functions as macro values, typed elements inside arrays, nested arrays, runtime macros "
+                  "($host.state$, $icinga.uptime$, …: the default resolvers are modelled as global `Vars` + the daemon's environment, `V i` / `U` lines), "
+                  "MacroResolver::OverrideMacros, set_if values beyond true/false/integers of up to 9 digits, std::sort instability beyond "
                   "16 equal-order arguments (compared modulo permutation), PluginNotificationTask/PluginEventTask and the cluster ExecuteCommand "
                   "callers of ResolveArguments. Modelled as a function of what waitpid reported (not of time): the exit status Process::DoEvents "
                   "derives for a timed-out or signalled plugin; process creation, pipes and the delivery of SIGTERM/SIGKILL are exercised only "
@@ -125,7 +139,8 @@ class C09(StdCheck):
     trusted_base = [
         "modelled, not verified: MacroProcessor::ResolveMacro/InternalResolveMacros/ResolveMacros/ResolveArguments/AddArgumentHelper/"
         "EscapeMacroShellArg, Utility::EscapeShellArg/Join, Process::PrepareCommand, PluginUtility::ExitStatusToState/ParseCheckOutput/"
-        "SplitPerfdata, PluginCheckTask::ProcessFinishedHandler, the `env` loop of PluginUtility::ExecuteCommand, the exit-status derivation of "
+        "SplitPerfdata, PluginCheckTask::ProcessFinishedHandler, the failure branch of PluginUtility::ExecuteCommand, the choice of the timeout in PluginCheckTask::ScriptFunc (check_timeout of the "
+        "checkable over timeout of the command), GetDefaultResolvers/EnvResolver (global Vars, getenv; ResolveShortMacros=false), the `env` loop of PluginUtility::ExecuteCommand, the exit-status derivation of "
         "Process::DoEvents (WIFEXITED / m_SentSigterm / WIFSIGNALED), Value::operator String for Boolean and integer-valued Number",
         "parameter: POSIX sh word splitting (`shWords`: blanks, backslash escapes, '…', \"…\" without live characters); every generated sh line is "
         "executed by the real /bin/sh and its argv diffed against the model",
@@ -136,6 +151,7 @@ class C09(StdCheck):
     assumptions = [
         "macro values are Empty, strings, Booleans, integer-valued Numbers (|n| < 10^9 where used as set_if) or arrays of strings; valid UTF-8 "
         "without NUL (the spawn helper transports argv and environment as JSON)",
+        "no resolver level is called `env` or `icinga`; names of variables put into the daemon's environment contain no `=`",
         "/bin/sh is a POSIX shell (dash on the build host); the first word of a command line contains no `=`",
         "the `arguments` dictionary iterates in bytewise key order (std::map<String, …>); at most 16 arguments (libstdc++ insertion sort is stable)",
     ]
@@ -143,13 +159,16 @@ class C09(StdCheck):
             "mutual recursion, cycles in which every hop is an array; real timeouts (1 s) with plugins that die on SIGTERM, trap it and exit "
             "0/1/2/3, ignore it, or fork a child that holds the output pipe (the child must be gone), and a string command line whose /bin/sh forks; "
             "plugins that die by signals 1, 2, 3 and a seed-dependent third of 6, 9, 10, 11, 13, 15 (array and string command lines). Every operation runs in a forked child: a crash or hang is a per-operation `no_crash` failure. seeded random: cases of custom variables on service/host/command (strings with `$$`, nested macro references, "
-            "malformed `$`, arrays, Empty, Booleans, integers, a variable named \"\"), attributes (address, display_name, notes, …: arbitrary bytes incl. lone `$`), "
+            "malformed `$`, arrays, Empty, Booleans, integers, a variable named \"\", variables named like the attributes address/notes/display_name), "
+            "global `Vars` (icinga level), 1..3 variables in the daemon's own environment named like the generator's missing macros and custom variables "
+            "(nx, ny, v0, …: $nx$ must stay missing, $env.nx$ reads it), attributes (address, display_name, notes, …: arbitrary bytes incl. lone `$`), "
             "each followed by ResolveMacros calls (levels 0..15, with/without shell escaping) and ResolveArguments calls (array / string command "
             "lines, dictionaries of 0..5 arguments with key, value, set_if, required, skip_key, repeat_key, order ties, separator incl. \"\", Boolean/Number values and set_if); "
             "plugin outputs through ProcessFinishedHandler; sh lines through the real /bin/sh; end-to-end checks through "
             "PluginCheckTask::ScriptFunc with the recording plugin (array and string command lines, exit statuses 0..255, 0..2 `env` entries of the "
             "command — macro strings — whose values the plugin reads back from its environment: clause env_verbatim, direct and cached path); string command "
-            "lines with a macro inside double quotes (Q-C09) for a list of hostile values; real timeouts. evaluations = operations compared; "
+            "lines with a macro inside double quotes (Q-C09) for a list of hostile values; real timeouts incl. check_timeout of the checkable over the "
+            "command's timeout in both directions (60/1 killed, 1/60 not killed). evaluations = operations compared; "
             "a case is non-trivial when it resolved a macro, produced an error, split output or ran a process (distinct by hash of the "
             "operation line, counted by the Lean driver)")
 
